@@ -96,3 +96,13 @@ Theorem C13_agree_eq_holds : forall c,
     agree c = holds c.
 Proof. exact agree_eq_holds. Qed.
 Print Assumptions C13_agree_eq_holds.
+
+(* ClipAction: whatever the agent proposes, the inner environment receives a member of its (bounded) action space,
+   and members are passed unchanged *)
+Theorem C13_clip_action_member : forall lo hi a, (lo <= hi)%Q -> (lo <= clipQ (Fin lo) (Fin hi) a <= hi)%Q.
+Proof. exact clipQ_range. Qed.
+Print Assumptions C13_clip_action_member.
+
+Theorem C13_clip_action_identity_on_members : forall lo hi a, (lo <= a <= hi)%Q -> clipQ (Fin lo) (Fin hi) a == a.
+Proof. exact clipQ_member_fixed. Qed.
+Print Assumptions C13_clip_action_identity_on_members.
